@@ -19,6 +19,7 @@ use crate::api_impl::owner::{check_ttl, post_tx};
 use crate::grin_core::core::transaction::{self, Transaction};
 use crate::grin_core::core::FeeFields;
 use crate::grin_core::global;
+use crate::grin_core::libtx::{build, proof::ProofBuilder};
 use crate::grin_keychain::Keychain;
 use crate::grin_util::secp::key::{PublicKey, SecretKey};
 use crate::internal::{selection, tx, updater};
@@ -273,6 +274,37 @@ where
 			// Add inputs and outputs to original context
 			context.input_ids = temp_context.input_ids;
 			context.output_ids = temp_context.output_ids;
+
+			// With the selection in hand the whole transaction can be completed in memory.
+			// Only a reply that gives a valid transaction - every signature verifies and the
+			// kernel sums balance - is worth reserving the inputs and rewriting the stored
+			// context for: a partial signature that merely verifies can be fabricated by
+			// anyone who has seen the first slate.
+			{
+				let mut probe = sl.clone();
+				probe.adjust_offset(&keychain, &context)?;
+				probe.amount = context.amount;
+				if let Some(f) = context.fee {
+					probe.fee_fields = f;
+				}
+				probe.add_participant_info(&keychain, &context, None)?;
+				let mut parts = vec![];
+				for (id, _, value) in context.get_inputs() {
+					if let Some(i) = w.iter().find(|out| out.key_id == id) {
+						if i.is_coinbase {
+							parts.push(build::coinbase_input(value, id));
+						} else {
+							parts.push(build::input(value, id));
+						}
+					}
+				}
+				for (id, _, value) in context.get_outputs() {
+					parts.push(build::output(value, id));
+				}
+				probe.add_transaction_elements(&keychain, &ProofBuilder::new(&keychain), parts)?;
+				probe.tx_or_err_mut()?.offset = probe.offset.clone();
+				tx::complete_tx(&mut *w, keychain_mask, &mut probe, &context)?;
+			}
 
 			// Store the updated context
 			{
